@@ -63,11 +63,15 @@ static void run_limiter(Scn& s, tbb::task_arena& A) {
         g_phase.store("limiter: draining (wait_for_all until everything accepted was delivered)");
         int idle_rounds = 0;
         for (;;) {
+            // An external decrement counts for the verdict only if its try_put had RETURNED before this wait_for_all began: only then the
+            // forwarding task it made is one the wait has to cover. (Reading the counters after the wait is not enough: on a loaded machine
+            // the decrement lands between the graph's idle instant and the reads, and its forwarding task has not run yet - false "stuck".)
+            long dd_before = dk == 3 ? decs_done.load() : 0, del_before = entries.load();
             g.wait_for_all();
             long want = 0; for (int p = 0; p < np; p++) for (int i = 0; i < ps.n[p]; i++) want += ps.puts[p][i].ok ? 1 : 0;
             long del = entries.load(), dd = dk == 3 ? decs_done.load() : del;
             if (del >= want && dd >= del) break;
-            if (dk == 3 && dd < del) { sched_yield(); idle_rounds = 0; continue; }     // an external decrement is still on its way
+            if (dk == 3 && (dd_before < del_before || del != del_before)) { sched_yield(); idle_rounds = 0; continue; }     // a decrement was still on its way when the wait began, or a message arrived during it
             if (topo == 1) break;                                                       // direct puts: anything missing is reported as lost below
             // graph idle, every decrement for the delivered messages has been applied, yet messages are still waiting in the queue
             if (++idle_rounds >= 3) { s.fail(K + ".stuck", "graph idle after wait_for_all: " + std::to_string(del) + " of " + std::to_string(want) + " messages delivered, " + std::to_string(dd) + " decrements applied, threshold " + std::to_string(T) + ": the limiter does not forward the rest"); break; }
@@ -134,10 +138,12 @@ static void run_limiter_batch(Scn& s, tbb::task_arena& A) {
         g_phase.store("limiter_batch: draining");
         int idle_rounds = 0;
         for (;;) {
+            long ack_before = ack_done.load(), del_before = entries.load();      // see run_limiter: an external acknowledgement counts only if it had returned before the wait began
             g.wait_for_all();
             long want = 0; for (int p = 0; p < np; p++) for (int i = 0; i < ps.n[p]; i++) want += ps.puts[p][i].ok ? 1 : 0;
             long del = entries.load();
             if (ack_mode != 2) { long k = unacked.exchange(0, RLX); if (k > 0) { ack(k); idle_rounds = 0; continue; } }     // acknowledge the incomplete last batch (the graph is idle: nothing runs in the sink)
+            else if (del < want && (ack_before < del_before || del != del_before)) { sched_yield(); idle_rounds = 0; continue; }
             else if (ack_done.load() < del) { sched_yield(); idle_rounds = 0; continue; }
             if (del >= want) break;
             if (topo == 1) break;
